@@ -3,7 +3,7 @@
 EXTENDS Integers, Sequences, TLC, Json
 CONSTANTS MaxLater, PLens
 VARIABLES c
-Kinds == {"addr4", "addr6", "addrother", "unknown", "ipv4", "ipv6", "octets", "utf8", "u32", "time", "mixed", "octets300", "utf8300", "ipv4mapped", "badgroup", "addrmapped", "pflag", "u32len8"}
+Kinds == {"addr4", "addr6", "addrother", "unknown", "ipv4", "ipv6", "octets", "utf8", "u32", "time", "mixed", "octets300", "utf8300", "ipv4mapped", "badgroup", "addrmapped", "pflag", "u32len8", "ebitbad", "emptygroup"}
 Later == {[how |-> h, size |-> z] : h \in {"same", "goroutine", "conn"}, z \in {"small", "large"}}
 \* variable-length values of a given payload length; plen = 0 stands for "the longest that keeps the
 \* whole message body inside the 1 KiB pooled read buffer" (1016 - 8 * depth)
